@@ -17,7 +17,7 @@ type OpResult struct {
 	Rec    *ReqRecord
 	Ticks  int64
 	// transport-level
-	NoResponse bool
+	NoResponse    bool
 	TransportNote string
 	// library client
 	LibPanic  string
